@@ -237,3 +237,134 @@ theorem groupUnary_eq (reduce : List (Option Nat) → α) (m : Many) :
   cases m.err <;> simp
 
 end ScVerif.C17
+
+namespace ScVerif.C17
+
+/-! ## the subscription loop -/
+
+/-- no two adjacent elements are equal -/
+def NoStutter : List V → Prop
+  | [] => True
+  | [_] => True
+  | a :: b :: rest => a ≠ b ∧ NoStutter (b :: rest)
+
+theorem noStutter_snoc (l : List V) (x : V) (h : NoStutter l) (hx : ∀ y, l.getLast? = some y → y ≠ x) :
+    NoStutter (l ++ [x]) := by
+  induction l with
+  | nil => trivial
+  | cons a t ih =>
+    cases t with
+    | nil => exact ⟨hx a rfl, trivial⟩
+    | cons b rest =>
+      obtain ⟨hab, hrest⟩ := h
+      refine ⟨hab, ?_⟩
+      apply ih hrest
+      intro y hy
+      apply hx y
+      simpa [List.getLast?_cons_cons] using hy
+
+variable [DecidableEq V]
+
+theorem pullFeed_slots (reduce : List (Option V) → Option V) (st : PullSt V) (ev : Nat × List V) :
+    (pullFeed reduce st ev).slots = slotStep st.slots ev := by
+  unfold pullFeed slotStep
+  cases ev.2.getLast? with
+  | none => rfl
+  | some v =>
+    simp only
+    split <;> rfl
+
+theorem pullFold_slots (reduce : List (Option V) → Option V) (evs : List (Nat × List V)) (st : PullSt V) :
+    (evs.foldl (pullFeed reduce) st).slots = evs.foldl slotStep st.slots := by
+  induction evs generalizing st with
+  | nil => rfl
+  | cons ev evs ih => rw [List.foldl_cons, List.foldl_cons, ih, pullFeed_slots]
+
+/-- what every iteration keeps: the last forwarded value is `lastChange` (nothing forwarded: the empty
+change), and no value is forwarded twice in a row -/
+structure PullInv (st : PullSt V) : Prop where
+  lastSent : st.sent.getLast?.getD none = st.last
+  noStutter : NoStutter st.sent
+  headSome : ∀ x, st.sent.head? = some x → x ≠ none
+
+theorem pullInv_feed (reduce : List (Option V) → Option V) (st : PullSt V) (ev : Nat × List V)
+    (h : PullInv st) : PullInv (pullFeed reduce st ev) := by
+  unfold pullFeed
+  cases ev.2.getLast? with
+  | none => exact h
+  | some v =>
+    simp only
+    split
+    · exact ⟨h.lastSent, h.noStutter, h.headSome⟩
+    · rename_i hne
+      refine ⟨by simp, ?_, ?_⟩
+      · apply noStutter_snoc _ _ h.noStutter
+        intro y hy
+        have : y = st.last := by have := h.lastSent; rw [hy] at this; exact this
+        rw [this]; exact hne
+      · intro x hx
+        cases hs : st.sent with
+        | nil =>
+          rw [hs] at hx
+          simp only [List.nil_append, List.head?_cons, Option.some.injEq] at hx
+          have hl : st.last = none := by have := h.lastSent; rw [hs] at this; exact this.symm
+          rw [← hx]; intro h0; exact hne (by rw [hl, h0])
+        | cons a t =>
+          rw [hs] at hx
+          simp only [List.cons_append, List.head?_cons, Option.some.injEq] at hx
+          exact h.headSome x (by rw [hs, ← hx]; rfl)
+
+theorem pullInv_fold (reduce : List (Option V) → Option V) (evs : List (Nat × List V)) (st : PullSt V)
+    (h : PullInv st) : PullInv (evs.foldl (pullFeed reduce) st) := by
+  induction evs generalizing st with
+  | nil => exact h
+  | cons ev evs ih => exact ih _ (pullInv_feed reduce st ev h)
+
+/-- once a non-empty message has been handled, `lastChange` is the reduction of the slots - and stays so -/
+theorem pullFeed_current (reduce : List (Option V) → Option V) (st : PullSt V) (ev : Nat × List V)
+    (h : st.last = reduce st.slots ∨ ev.2 ≠ []) :
+    (pullFeed reduce st ev).last = reduce (pullFeed reduce st ev).slots := by
+  unfold pullFeed
+  cases hg : ev.2.getLast? with
+  | none =>
+    rcases h with h | h
+    · exact h
+    · exact absurd (List.getLast?_eq_none_iff.mp hg) h
+  | some v =>
+    simp only
+    split
+    · rename_i heq; exact heq
+    · rfl
+
+theorem pullFold_current (reduce : List (Option V) → Option V) (evs : List (Nat × List V)) (st : PullSt V)
+    (h : st.last = reduce st.slots) :
+    (evs.foldl (pullFeed reduce) st).last = reduce (evs.foldl (pullFeed reduce) st).slots := by
+  induction evs generalizing st with
+  | nil => exact h
+  | cons ev evs ih => exact ih _ (pullFeed_current reduce st ev (Or.inl h))
+
+theorem pullFeed_empty (reduce : List (Option V) → Option V) (st : PullSt V) (ev : Nat × List V)
+    (h : ev.2 = []) : pullFeed reduce st ev = st := by
+  unfold pullFeed
+  rw [h]; rfl
+
+theorem pullRun_current (reduce : List (Option V) → Option V) (n : Nat) (evs : List (Nat × List V))
+    (h : ∃ ev ∈ evs, ev.2 ≠ []) :
+    (pullRun reduce n evs).last = reduce (pullRun reduce n evs).slots := by
+  unfold pullRun
+  generalize pullInit n = st
+  induction evs generalizing st with
+  | nil => obtain ⟨ev, hev, _⟩ := h; cases hev
+  | cons ev evs ih =>
+    rw [List.foldl_cons]
+    by_cases he : ev.2 = []
+    · rw [pullFeed_empty reduce st ev he]
+      apply ih
+      obtain ⟨ev', hev', hne⟩ := h
+      rcases List.mem_cons.mp hev' with rfl | hin
+      · exact absurd he hne
+      · exact ⟨ev', hin, hne⟩
+    · exact pullFold_current reduce evs _ (pullFeed_current reduce st ev (Or.inr he))
+
+
+end ScVerif.C17
